@@ -5,8 +5,13 @@
 (*          call  {id, op, k, v, ttl, d} / ret {id, res}   concurrent calls   *)
 (*          stopret {alive}   Stop returned; alive: the cleaner still exists  *)
 (* Between call and ret an operation takes effect in one silent step (TLin); *)
-(* Cleanup and Reset in two (TLin = scan, TSweep = bulk delete).  While the  *)
-(* periodic cleaner is on, it may scan and sweep at any time.  A history is  *)
+(* Cleanup, Reset and Delete in two or more: TLin collects the keys (scan),  *)
+(* TSweep removes them - and may do so repeatedly until the call returns:    *)
+(* the underlying lock-free map (haxmap) can lose a Set that lands while a   *)
+(* Del of the same key is in progress (marked, not yet unlinked), which is   *)
+(* the documented "updated after the scan, deleted nevertheless" race, not   *)
+(* bounded to one loss.  While the periodic cleaner is on, it may scan and   *)
+(* sweep at any time.  A history is  *)
 (* accepted iff some choice of silent steps explains every recorded result;  *)
 (* TLC prints DONE <trace> when it reaches the end of one.                   *)
 EXTENDS TTLCache, TraceLib, Sequences
@@ -22,7 +27,7 @@ TInit == /\ tr \in Starts /\ l = tr /\ store = << >> /\ now = 0 /\ maxTTL = Trac
 
 HasNext == l + 1 <= Trace[tr].end
 Ev == Trace[l + 1]
-TwoStep(op) == op \in {"cleanup", "reset"}
+TwoStep(op) == op \in {"cleanup", "reset", "delete"}
 
 (* effect of a one-step operation: <<store, now, result>> *)
 Eff(e) == CASE e.op = "set"     -> <<SetTo(store, now, maxTTL, e.k, e.v, e.ttl), now, 0>>
@@ -44,16 +49,18 @@ TCall == /\ HasNext /\ Ev.ev = "call"
 TLin(id) == /\ HasNext /\ ops[id].st = "called"
             /\ IF TwoStep(ops[id].e.op)
                  THEN /\ ops' = [ops EXCEPT ![id].st = "scanned",
-                                            ![id].ks = IF ops[id].e.op = "reset" THEN DOMAIN store ELSE Expired(store, now)]
+                                            ![id].ks = CASE ops[id].e.op = "reset" -> DOMAIN store
+                                                         [] ops[id].e.op = "delete" -> {ops[id].e.k}
+                                                         [] OTHER -> Expired(store, now)]
                       /\ UNCHANGED <<store, now>>
                  ELSE LET r == Eff(ops[id].e) IN
                       /\ store' = r[1] /\ now' = r[2]
                       /\ ops' = [ops EXCEPT ![id].st = "lin", ![id].res = r[3]]
             /\ UNCHANGED <<tr, l, maxTTL, cp, cleanerOn>>
 
-TSweep(id) == /\ HasNext /\ ops[id].st = "scanned"
+TSweep(id) == /\ HasNext /\ ops[id].st \in {"scanned", "lin"} /\ TwoStep(ops[id].e.op)
               /\ store' = Del(store, ops[id].ks)
-              /\ ops' = [ops EXCEPT ![id].st = "lin"]
+              /\ ops' = [ops EXCEPT ![id].st = "lin"]           \* "lin": swept at least once; may sweep again until ret
               /\ UNCHANGED <<tr, l, now, maxTTL, cp, cleanerOn>>
 
 TRet == /\ HasNext /\ Ev.ev = "ret" /\ Ev.id \in DOMAIN ops
@@ -65,7 +72,7 @@ TRet == /\ HasNext /\ Ev.ev = "ret" /\ Ev.id \in DOMAIN ops
 CScan == /\ HasNext /\ cleanerOn /\ ~cp.a /\ cp' = [a |-> TRUE, ks |-> Expired(store, now)]
          /\ cp'.ks # {}                       \* a scan that finds nothing has no effect
          /\ UNCHANGED <<tr, l, store, now, maxTTL, ops, cleanerOn>>
-CSweep == /\ HasNext /\ cp.a /\ store' = Del(store, cp.ks) /\ cp' = Idle
+CSweep == /\ HasNext /\ cp.a /\ store' = Del(store, cp.ks) /\ cp' \in {cp, Idle}     \* repeatable, see above
           /\ UNCHANGED <<tr, l, now, maxTTL, ops, cleanerOn>>
 
 (* Stop returned: the property says the cleaner has exited by now *)
